@@ -42,6 +42,7 @@ type vpTransport struct {
 	onDrain     func() // runs while the gateway waits for the connection's first bytes (Drain)
 	clientGone  bool // DATA writes to this connection block until it is closed (a client that stopped reading)
 	isWS        bool // handed out by the NewWS stub: one ReadPacket = one websocket message
+	errWithLast error // io.Reader contract: the LAST scripted read returns its bytes together with this error (n > 0, err != nil)
 	pauseAt     int  // 1+index of the packet before which the client stays silent for a long time (0: never)
 	countOverlaps bool // keep the two counters below
 	inflight    int  // WritePacket calls in progress
@@ -76,6 +77,11 @@ func (t *vpTransport) ReadPacket() (int, []byte, error) {
 	t.pos++
 	if t.isWS && vpWSReadLimit > 0 && int64(len(p)) > vpWSReadLimit {
 		return 0, []byte{0, 0}, errors.New("vp: websocket: read limit exceeded")
+	}
+	if t.errWithLast != nil && t.pos == len(t.in) {
+		// the end of the stream (or a failure) is reported together with the last bytes, as net/http's
+		// chunked reader does when the terminating chunk is already buffered behind them
+		return len(p), p, t.errWithLast
 	}
 	return len(p), p, nil
 }
